@@ -110,6 +110,7 @@ def bound_consistency_algorithm(
             not_entailed_propagators_stack[top, prop_idx] = False
             statistics[STATS_IDX_PROPAGATOR_ENTAILMENT_NB] += 1
         shr_domains_changes = False
+        filter_again = False
         for var_idx in range(prop_var_end - prop_var_start):
             shr_domain_idx = prop_indices[var_idx]
             events = 0
@@ -136,5 +137,13 @@ def bound_consistency_algorithm(
                     shr_domain_idx,
                     events,
                 )
+            if (
+                shr_domains_stack[top, shr_domain_idx, MIN] != shr_domain_min
+                or shr_domains_stack[top, shr_domain_idx, MAX] != shr_domain_max
+            ):
+                # a shared domain occurring several times in the propagator is smaller than what the propagator computed
+                filter_again = True
+        if filter_again:
+            prop_idx = -1  # the propagator has not seen the final domains: it must not be skipped by pop_propagator
         if not shr_domains_changes:
             statistics[STATS_IDX_PROPAGATOR_FILTER_NO_CHANGE_NB] += 1
